@@ -35,7 +35,7 @@ struct Base {
 }
 
 const METHODS: &[&str] = &["GET", "PUT", "POST", "DELETE", "HEAD"];
-const PATHS: &[&str] = &[
+pub const PATHS: &[&str] = &[
     "/bkt/a",
     "/bkt/a%20b",
     "/bkt/a+b",
@@ -55,7 +55,7 @@ const PATHS: &[&str] = &[
     "/bkt/a%2520b",
     "/bkt/%2541",
 ];
-const QUERIES: &[&str] = &["", "a=1", "a=", "a", "b=2&a=1", "a=2&a=1", "a=1&a=2", "a=%20+%2F", "k=%C3%A9", "A=1&a=2", "k=%2541&%2520=v",
+pub const QUERIES: &[&str] = &["", "a=1", "a=", "a", "b=2&a=1", "a=2&a=1", "a=1&a=2", "a=%20+%2F", "k=%C3%A9", "A=1&a=2", "k=%2541&%2520=v",
     // names whose order changes when they are escaped (the canonical form sorts the *escaped* names): ':' sorts after '1',
     // "%3A" before it; 'é' sorts after 'e', "%C3%A9" before it - in both wire orders
     "x-a1=1&x-a%3Ab=2", "x-a%3Ab=2&x-a1=1", "name=1&nam%C3%A9=2", "nam%C3%A9=2&name=1"];
